@@ -101,6 +101,16 @@ def rule_bookkeeping(ck):
     look = [f.call_at(b) for b in region if f.call_at(b) is not None and f.call_at(b).name in (TC + "::tracee_mut", TC + "::tracee")]
     ok = bool(adds) and bool(look) and all(f.dominates(look[0].bb, a.bb) for a in adds)
     ck.ob("table.thread_events", "PTRACE_EVENT_STOP/add-only-when-unknown", ok, "", f.loc(tg[128]))
+    # ... else mark stopped: a known thread that reports PTRACE_EVENT_STOP is stopped, whatever provoked the stop (a late
+    # PTRACE_INTERRUPT of a group stop that found the thread in its own trap arrives after the thread was resumed)
+    ss = [b for b in region if f.call_at(b) is not None and f.call_at(b).name == TE + "::set_stop"]
+    okk = bool(ss) and bool(look)
+    if okk:
+        # from the lookup, every way out of the arm passes set_stop or add (the unknown-thread branch registers it stopped)
+        addb = {a.bb for a in adds}
+        esc = [x for x in f.reach_from(f.succ(look[0].bb), avoid=set(ss) | addb) if x not in region and not f.blocks[x]["cleanup"] and x not in f.error_exit_blocks() and f.blocks[x]["term"]["t"] != "unreachable"]
+        okk = not esc
+    ck.ob("table.thread_events", "PTRACE_EVENT_STOP/known-thread-marked-stopped", okk, f"set_stop calls in the arm: {len(ss)}", f.loc(tg[128]), what="a thread that reports PTRACE_EVENT_STOP stays recorded as running: it is never resumed again and the next group stop waits for it forever")
     rm = ck.anchor(TC + "::remove")
     ck.ob("table.thread_events", "TraceeCtl::remove/removes-from-map", any(re.search(r"HashMap::<K, V, S(, A)?>::remove$", c.name) for c in rm.calls()), "", rm.loc())
     ad = ck.anchor(TC + "::add")
